@@ -124,6 +124,9 @@ def check_dialogue(P, vtag, all_metrics, answers):
     P.evaluations += 1
     ver = DLG.VER_OF[vtag]
     case = {"dialogue": {"version": vtag, "all_metrics": all_metrics, "answers": answers}}
+    if DLG.MODES:  # history part of the witness: modes and last sessions run earlier in this process
+        case["dialogue"]["modes_before"] = [list(x) for x in DLG.MODES]
+        case["dialogue"]["sessions_before"] = [list(x) for x in DLG.RECENT]
     r = DLG.run_dialogue(vtag, all_metrics, answers)
     if r["ret"] is None:
         P.stratum("dialogue-incomplete:" + str(r["exc"]))
@@ -134,6 +137,11 @@ def check_dialogue(P, vtag, all_metrics, answers):
 def check_case(P, case):
     if "dialogue" in case:
         d = case["dialogue"]
+        from . import C16
+        for vt, am in d.get("modes_before") or []:
+            DLG.run_dialogue(vt, am, C16.probe_answers(vt), limit=100000)
+        for vt, am, ans in d.get("sessions_before") or []:
+            DLG.run_dialogue(vt, am, ans)
         check_dialogue(P, d["version"], d["all_metrics"], d["answers"])
     elif "precalls" in case:
         check_vector_after(P, case["ver"], case["vector"], case["precalls"])
@@ -192,7 +200,9 @@ def shard_dialogue(P, vtag, all_metrics, n, seed):
     order, probe = DLG.question_order(vtag, all_metrics)
     P.evaluations += 1
     if probe["ret"] is not None:
-        judge(P, ver, DLG.PREFIX_OF[vtag], probe["ret"], "ask_interactively", {"dialogue": "probe:%s:%s" % (vtag, all_metrics)})
+        from . import C16
+        judge(P, ver, DLG.PREFIX_OF[vtag], probe["ret"], "ask_interactively",
+              {"dialogue": {"version": vtag, "all_metrics": all_metrics, "answers": C16.probe_answers(vtag)}})
     if order is None or set(order) != DLG.metric_set(vtag, all_metrics):
         P.stratum("dialogue-order-not-usable")
         return
